@@ -99,7 +99,7 @@ def check(prop, cond, sig, detail):
 
 
 def u32(words):
-    return np.array(words, dtype=np.uint32)
+    return presented(np.array(words, dtype=np.uint32))
 
 
 VIEWS = {"seq": [0], "at": 0}
